@@ -4,7 +4,7 @@ from __future__ import annotations
 import ast
 
 from ..cfg import CFG
-from ..engine import AnalysisError, PropertySpec, norm
+from ..engine import AnalysisError, MechanismMissing, PropertySpec, norm
 from ..pyutil import call_name, calls, dotted, is_name, walk_local
 
 TREE = "src/pymoca/tree.py"
@@ -141,7 +141,7 @@ def r08_1(ctx, rep):
     rep.ob(R, TREE + ":flatten_extends", "extends clause env passed to base", ok,
            "the base class is flattened with the extends clause's class_modification as its (outer) environment")
     if n < 5:
-        raise AnalysisError(R, "fewer than 5 modification merge sites found")
+        raise MechanismMissing(R, "fewer than 5 modification merge sites found")
 
 
 def _in_try(node) -> bool:
@@ -176,44 +176,77 @@ def _cleared_after_build(ctx, R) -> bool:
     return True
 
 
+def _enclosing_arg_loop(node, fn):
+    """innermost enclosing `for <v> in <selection of modification arguments>` loop variable"""
+    p = getattr(node, "_parent", None)
+    while p is not None and p is not fn:
+        if isinstance(p, ast.For) and isinstance(p.target, ast.Name) and isinstance(p.iter, ast.Name) and "argument" in p.iter.id:
+            return p.target.id
+        p = getattr(p, "_parent", None)
+    return None
+
+
+def _scope_source(fn, st):
+    """expression the freshly built ClassModificationArgument's scope is set from (kwarg or `v.scope = E` in the same block)"""
+    call = st.value
+    for k in call.keywords:
+        if k.arg == "scope":
+            return k.value
+    v = st.targets[0].id
+    from ..pyutil import stmt_list_of
+
+    block = stmt_list_of(st) or []
+    for s2 in block[block.index(st) + 1:]:
+        if isinstance(s2, ast.Assign) and norm(s2.targets[0]) == v + ".scope":
+            return s2.value
+        if ".append(%s)" % v in norm(s2) or (isinstance(s2, ast.Return) and is_name(s2.value, v)):
+            break
+    return None
+
+
 @SPEC.rule(
     "R08.2",
-    "scope propagation: every ClassModificationArgument built from an existing argument copies its scope before it "
-    "is appended; arguments without scope get the enclosing instance class as scope before they are passed down",
+    "scope propagation: every ClassModificationArgument built in tree.py from an existing argument gets that "
+    "argument's scope — directly (`v.scope = arg.scope`) or through a helper parameter that every call site fills with "
+    "`arg.scope`; arguments without scope get the enclosing instance class as scope before they are passed down",
 )
 def r08_2(ctx, rep):
     R = "R08.2"
+    mod = ctx.module(TREE, R)
     fn = ctx.func(TREE, "build_instance_tree", R)
     site = TREE + ":build_instance_tree"
     n = 0
-    for loop in walk_local(fn):
-        if not (isinstance(loop, ast.For) and isinstance(loop.target, ast.Name)):
-            continue
-        lv = loop.target.id
-        for blockowner in ast.walk(loop):
-            for fld in ("body", "orelse"):
-                block = getattr(blockowner, fld, None)
-                if not isinstance(block, list):
-                    continue
-                for i, st in enumerate(block):
-                    if isinstance(st, ast.Assign) and isinstance(st.value, ast.Call) and (call_name(st.value) or "").endswith("ClassModificationArgument") \
-                            and isinstance(st.targets[0], ast.Name):
-                        v = st.targets[0].id
-                        # only the innermost enclosing loop over arguments counts
-                        if not any(x is st for x in ast.walk(loop)):
-                            continue
-                        inner = [l2 for l2 in ast.walk(loop) if isinstance(l2, ast.For) and l2 is not loop and any(x is st for x in ast.walk(l2))
-                                 and isinstance(l2.target, ast.Name) and (l2.target.id == "arg")]
-                        if inner or lv != "arg":
-                            continue
-                        n += 1
-                        rest = block[i + 1:]
-                        scope_i = [k for k, s in enumerate(rest) if norm(s) == "%s.scope = %s.scope" % (v, lv)]
-                        app_i = [k for k, s in enumerate(rest) if ".append(%s)" % v in norm(s)]
-                        ok = bool(scope_i and app_i and scope_i[0] < app_i[0])
-                        rep.ob(R, site, "derived argument #%d" % n, ok,
-                               "a value modification re-wrapped as `value=` argument must keep the scope of the argument it came "
-                               "from (`%s.scope = %s.scope` before append); otherwise its expression is resolved in the wrong class" % (v, lv))
+    funcs = [f for f in mod.body if isinstance(f, ast.FunctionDef)]
+    for f in funcs:
+        for st in walk_local(f):
+            if isinstance(st, ast.Assign) and isinstance(st.value, ast.Call) and (call_name(st.value) or "").endswith("ClassModificationArgument") \
+                    and isinstance(st.targets[0], ast.Name):
+                src = _scope_source(f, st)
+                loopvar = _enclosing_arg_loop(st, f)
+                params = [a.arg for a in f.args.args]
+                fsite = TREE + ":" + f.name
+                if loopvar is not None:
+                    n += 1
+                    rep.ob(R, fsite, "derived argument #%d" % n, src is not None and norm(src) == loopvar + ".scope",
+                           "a value modification re-wrapped as `value=` argument must keep the scope of the argument it came from "
+                           "(scope = %s.scope); found %s — otherwise its expression is resolved in the wrong class" % (loopvar, norm(src) if src is not None else "no scope"))
+                elif src is not None and isinstance(src, ast.Name) and src.id in params:
+                    # helper: every call site must pass <loop argument>.scope for that parameter
+                    idx = params.index(src.id)
+                    for g in funcs:
+                        for c in calls(g):
+                            if is_name(c.func, f.name):
+                                n += 1
+                                val = c.args[idx] if idx < len(c.args) else next((k.value for k in c.keywords if k.arg == src.id), None)
+                                lv = _enclosing_arg_loop(c, g)
+                                ok = val is not None and lv is not None and norm(val) == lv + ".scope"
+                                rep.ob(R, TREE + ":" + g.name, "call %s #%d" % (f.name, n), ok,
+                                       "%s() builds a modification argument whose scope is its parameter `%s`; this call passes %s instead of "
+                                       "%s.scope: the modification expression is resolved in the wrong class"
+                                       % (f.name, src.id, norm(val) if val is not None else "nothing (default)", lv or "<argument>"))
+                elif f.name in ("build_instance_tree",) or any(is_name(c.func, f.name) for g in funcs for c in calls(g) if g.name == "build_instance_tree"):
+                    n += 1
+                    rep.ob(R, fsite, "derived argument #%d" % n, False, "a ClassModificationArgument is built without taking over any scope")
     cfg = CFG(fn, R)
     setters = {x.id for x in cfg.stmts() if norm(x.ast).startswith("arg.scope = ") and "extended_orig_class" in norm(x.ast)}
     builds = [x for x in cfg.stmts() if isinstance(x.ast, ast.Assign) and isinstance(x.ast.value, ast.Call)
@@ -232,7 +265,7 @@ def r08_2(ctx, rep):
            "before a symbol's modifications are handed to its type's instance tree every argument without scope must get the "
            "current instance class as scope")
     if n < 3:
-        raise AnalysisError(R, "fewer than 3 scope-propagation instances found")
+        raise MechanismMissing(R, "fewer than 3 scope-propagation instances found")
 
 
 @SPEC.rule(
@@ -279,7 +312,7 @@ def r08_3(ctx, rep):
                    "modifications selected by their first name are processed on some path without looking at component.child: a dotted "
                    "modification such as x.start = 5 is applied as if it were x = 5", path=cfg.describe(w) if w else "")
     if inst < 2:
-        raise AnalysisError(R, "fewer than 2 symbol-selector loops found")
+        raise MechanismMissing(R, "fewer than 2 symbol-selector loops found")
 
 
 def _negation(a, b) -> bool:
